@@ -47,7 +47,11 @@ func TestVerifDriverC16(t *testing.T) {
 		p := int64(1) << k
 		vals = append(vals, p, p-1, p+1, -p, -p-1, -p+1)
 	}
-	for i := 0; i < 20000; i++ {
+	nRandom := 20000
+	if os.Getenv("VERIF_DRIVER_REASON") == "thorough" {
+		nRandom = 400000 // thorough tier
+	}
+	for i := 0; i < nRandom; i++ {
 		vals = append(vals, int64(rng.Uint64())>>uint(rng.Intn(64)))
 	}
 	buf := NewTMemoryBuffer()
